@@ -1399,6 +1399,15 @@ def inline_unknown_helpers(j, known_names, helper_keys=None, max_rounds=3):
         forward.setdefault(hk, []).append((b, params))
     forward = {hk: v[0] for hk, v in forward.items() if len(v) == 1}
     for hk, (fb, params) in forward.items():
+        hb = originals[hk]
+        if params == list(range(1, fb['arg_count'] + 1)) and hb['arg_count'] == fb['arg_count']:
+            # every parameter is handed on in place: the forwarder simply takes the helper's body (its parameters stay parameters:
+            # `self` is still local 1 for the rules that follow a by-value `self`)
+            fb['blocks'] = copy.deepcopy(hb['blocks'])
+            fb['locals'] = copy.deepcopy(hb['locals'])
+            fb.setdefault('inlined', []).append(hb['pretty'])
+            used.add(hk)
+    for hk, (fb, params) in forward.items():
         tr = fb.get('impl_trait')
         desc = {'key': (tr + '::' + fb['name']) if tr else fb['key'], 'pretty': fb['pretty'], 'path': strip_generics(fb['pretty']), 'krate': j['crate'], 'name': fb['name'],
                 'args': [], 'trait': tr, 'trait_pretty': (tr or '').replace(j['crate'] + '::', '', 1) if tr else None, 'self_ty': fb.get('impl_self_ty'),
